@@ -49,6 +49,13 @@ def build(tier, rnd):
                 if tier == 'quick' and ct.startswith('ssh-rsa') and hs in (1024, 4096) and ca == 'ssh-rsa' and casz not in (2048, 3072):
                     continue
                 add([ct, 'ssh-ed25519'], {ct: (hs, ca, casz)}, 'cert')
+    # RSA certificates offered under the SHA-2 signature names, next to the plain RSA key they certify (distinct blobs: the
+    # family's one fingerprint is that of the plain key, never of a certificate)
+    for ct in ('rsa-sha2-256-cert-v01@openssh.com', 'rsa-sha2-512-cert-v01@openssh.com'):
+        for ca, casz in (('ssh-rsa', 2048), ('ssh-rsa', 4096), ('ssh-ed25519', 256)):
+            add([ct, 'rsa-sha2-512', 'ssh-ed25519'], {ct: (3072, ca, casz), 'rsa-sha2-512': (4096, '', 0)}, 'cert-sha2')
+            add(['ssh-rsa', ct], {ct: (2048, ca, casz), 'ssh-rsa': (3072, '', 0)}, 'cert-sha2')
+        add([ct, 'ssh-ed25519'], {ct: (4096, 'ssh-rsa', 3072)}, 'cert-sha2')
     # RSA family: every non-empty ordered subset, one shared key
     for k in (1, 2, 3):
         for sub in itertools.permutations(RSA_FAM, k):
